@@ -230,7 +230,8 @@ typeadjust(struct type *t, enum typequal *tq)
 		*tq = ptrqual;
 		break;
 	case TYPEFUNC:
-		assert(*tq == QUALNONE);
+		if (*tq != QUALNONE)
+			error(&tok.loc, "function type cannot be qualified");
 		t = mkpointertype(t, QUALNONE);
 		break;
 	}
